@@ -262,6 +262,7 @@ class Net(canopen.Network):
         elif can_id == 0x200 + self.nid:                           # RPDO1: controlword, mode
             cw = int.from_bytes(data[0:2], "little")
             mode = int.from_bytes(data[2:3], "little", signed=True)
+            self.rpdo_modes.append(mode)
             if self.rpdo_is_mode:
                 drv.write_mode(mode)
             else:
@@ -269,6 +270,10 @@ class Net(canopen.Network):
                 drv.controlword(cw)
 
     rpdo_is_mode = False
+
+    @property
+    def rpdo_modes(self):
+        return self.__dict__.setdefault("_rpdo_modes", [])
 
     def _stamp(self):
         self.ts += 1.0
@@ -421,6 +426,31 @@ def _run_impl(op):
         except Exception as e:
             res = "other-" + type(e).__name__
         return f"{res} wr={nl(drv.mode_writes)} rd={drv.mode_reads}"
+    if a[0] == "modef":
+        # like `mode`, then the state is assigned: an RPDO sent for that reason carries the mode that is in force
+        mi, mask, tr, delay, M = int(a[1]), int(a[2]), a[3], int(a[4]), int(a[5])
+        drv = Drive(SOD, 0, 0, 0, [], NEVER)
+        drv.supported, drv.mode_delay = mask, delay
+        node, net, clock = make_node(drv, tr, M=M)
+        net.rpdo_is_mode = True
+        if tr == "p":
+            net.tpdo_mode_read = True
+        try:
+            node.op_mode = MODES[mi]
+            res = "ok"
+        except (TypeError, KeyError):
+            res = "refused"
+        except Exception as e:
+            res = "other-" + type(e).__name__
+        wr, rd = nl(drv.mode_writes), drv.mode_reads
+        net.rpdo_is_mode = False
+        net.tpdo_mode_read = False
+        del net.rpdo_modes[:]
+        try:
+            node.state = "READY TO SWITCH ON"
+        except Exception as e:
+            res += "+" + type(e).__name__
+        return f"{res} wr={wr} rd={rd} carried={nl(net.rpdo_modes)}"
     return "bad-op"
 
 
@@ -497,6 +527,20 @@ def oracle(op, out):
             return f"history {items}: operation was enabled although never asked for"
         if items and items[-1] in COMMANDABLE and st != items[-1]:
             return f"history {items}: all assignments returned but the drive is in {NAMES[st]}"
+        return None
+    if a[0] == "modef":
+        w = oracle(" ".join(["mode"] + a[1:]), out.rsplit(" carried=", 1)[0])
+        if w:
+            return w
+        res, kv = parse_out(out)
+        carried = unnl(kv["carried"])
+        name = MODES[int(a[1])]
+        want = 0
+        if res == "ok":
+            want = 0 if name == "NO MODE" else MODE_BIT_CODE[name][1]
+        if a[3] == "p" and any(c != want for c in carried):
+            return (f"modef: after mode {name} was {'set' if res == 'ok' else 'refused'} an RPDO sent for the "
+                    f"controlword carried mode code(s) {carried}, the mode in force is {want}")
         return None
     if a[0] == "mode":
         name, mask = MODES[int(a[1])], int(a[2])
@@ -667,6 +711,10 @@ def gen_ops(tier, rng):
         for delay in (1, 2, 5, 6, 7, 50):
             for tr in "sp":
                 yield f"mode {mi} {rng.getrandbits(32) | 0x3EF} {tr} {delay} 5"
+        # the mode request followed by a state assignment (controlword and mode share RPDO 1)
+        for m in (0, 0x3EF, 0xFFFFFFFF, rng.getrandbits(10), rng.getrandbits(10)):
+            for tr in "sp":
+                yield f"modef {mi} {m} {tr} 0 5"
 
 
 CORPUS = [
